@@ -1,5 +1,5 @@
 (* rep driver (C11): one case per line, space-separated tokens.
-   repair <fix> <S0 | S n {key fd}> O n {text int|x float:fin:zero|x} G n {char value} D n {node}
+   repair <fix: 0 | 1 | v~ | w~ | c~ (switch omitted at validate / write / cli)> <S0 | S n {key fd}> O n {text int|x float:fin:zero|x} G n {char value} D n {node}
      O = int()/float() oracle (float = repr, fin = isfinite, zero = (x == 0)); G = digit oracle: non-ASCII code point -> int(ch)
      for every ch with ch.isdecimal() occurring in the case (absent = not a decimal digit)
      fd     := p | c | F n {constr}        constr := E n {str} | T str | X
@@ -102,7 +102,12 @@ let handle l =
   try
     match next () with
     | "repair" ->
-      let fx = tok_bool (next ()) in
+      (* switch: 0 | 1 explicit; v~ / w~ / c~ = OMITTED at octave_validate / octave_write / the CLI (default from RepairGen) *)
+      let fx = (match next () with
+          | "v~" -> surface_flag (n_of_int 1) None
+          | "w~" -> surface_flag (n_of_int 2) None
+          | "c~" -> surface_flag (n_of_int 3) None
+          | t -> tok_bool t) in
       let s = schema () in
       let o = oracle () in
       let g = digits () in
